@@ -281,6 +281,7 @@ impl Table for DisplacedTable {
     fn clear(&mut self) {
         self.uf.reset();
         self.displaced.clear();
+        self.lookup_table.clear();
     }
 
     fn all(&self) -> Subset {
